@@ -281,7 +281,11 @@ func (o *Originator) load(x *ssa.UnOp, c *octx) *Term {
 	case *ssa.FreeVar:
 		return &Term{Op: "free", S: "free:" + a.Name(), V: x}
 	case *ssa.IndexAddr:
-		return &Term{Op: "elem", Args: []*Term{o.of(a.X, c), o.of(a.Index, c)}, V: x}
+		base := o.of(a.X, c)
+		if p, ok := base.APOf(); ok {
+			return &Term{Op: "load", S: p + "[]", V: x}
+		}
+		return &Term{Op: "elem", Args: []*Term{base, o.of(a.Index, c)}, V: x}
 	case *ssa.FieldAddr:
 		// field of a fresh composite literal in this function: the stored value
 		if al, ok := a.X.(*ssa.Alloc); ok {
